@@ -10,11 +10,12 @@
                        run on the history tape gives exactly this state
      Memoryless        (action property) a rejected attempt changes nothing but the tape position
    and, in the initial state of every (kind, n, k):
+   NaiveShuffle = TRUE draws every swap index from the whole list (the classic biased shuffle): FibresEqual must fail.
      FibresEqual       the induced map  tapes -> results  has EQUAL FIBRES: among all BB^L tapes of length L (every
                        L in MinLen(n)..FibreLen) each permutation (each k-sequence) is the result of the same, positive, number
                        of tapes (a tape counts for the result reached within its L bytes). *)
 EXTENDS Sampler
-CONSTANTS MaxN, MaxLen, FibreLen     \* MaxLen bounds the explored tapes, FibreLen the tapes counted in FibresEqual
+CONSTANTS NaiveShuffle, MaxN, MaxLen, FibreLen     \* MaxLen bounds the explored tapes, FibreLen the tapes counted in FibresEqual
 VARIABLES lvl, s, tape
 vars == <<lvl, s, tape>>
 Start(kind, n, k) == [kind |-> kind, n |-> n, k |-> k, arr |-> [j \in 1..n |-> j - 1], i |-> n - 1, out |-> <<>>,
@@ -26,14 +27,14 @@ Init == lvl = 0 /\ tape = <<>> /\ s = [kind |-> "root"]
 Choose == \/ lvl = 0 /\ lvl' = 1 /\ tape' = tape /\ \E c \in Cases : (c[1] = "sample" => c[3] <= c[2]) /\ s' = [kind |-> "case", c |-> c]
           \/ lvl = 1 /\ lvl' = 2 /\ tape' = tape /\ s' = Start(s.c[1], s.c[2], s.c[3])
 \* one randrange attempt with the byte d
-SpOf(x) == IF x.kind = "shuffle" THEN SmpRandrange(x.i + 1) ELSE SmpRandrange(x.n)
+SpOf(x) == IF x.kind = "shuffle" THEN SmpRandrange(IF NaiveShuffle THEN x.n ELSE x.i + 1) ELSE SmpRandrange(x.n)
 Att(x, d) == SmpStep(SpOf(x), SmpInit, <<d>>)
 Selected(x, v) == \E j \in 1..Len(x.out) : x.out[j] = v
 Accepts(x, d) == LET a == Att(x, d) IN a.st = "done" /\ (x.kind = "sample" => ~Selected(x, SmpVal(a.cb)))
 Step(x, d) ==
    IF ~Accepts(x, d) THEN x
    ELSE LET v == SmpVal(Att(x, d).cb) IN
-        IF x.kind = "shuffle" THEN [x EXCEPT !.arr = Swap(x.arr, x.i + 1, v + 1), !.i = x.i - 1, !.st = IF x.i - 1 < 1 THEN "done" ELSE "run"]
+        IF x.kind = "shuffle" THEN [x EXCEPT !.arr = SmpSwap(x.arr, x.i + 1, v + 1), !.i = x.i - 1, !.st = IF x.i - 1 < 1 THEN "done" ELSE "run"]
         ELSE [x EXCEPT !.out = Append(x.out, v), !.st = IF Len(x.out) + 1 = x.k THEN "done" ELSE "run"]
 Draw == /\ lvl = 2 /\ s.st = "run" /\ Len(tape) < MaxLen /\ lvl' = lvl
         /\ \E d \in 0..(BB - 1) : s' = Step(s, d) /\ tape' = Append(tape, d)
@@ -53,7 +54,7 @@ StepUniform == (lvl = 2 /\ s.st = "run") =>
       /\ \A v \in Admissible(s) : hits[v] > 0
       /\ \A d \in 0..(BB - 1) : pk[d] >= 0 => pk[d] \in Admissible(s)
 RunMatchesSteps == lvl = 2 =>
-   LET r == IF s.kind = "shuffle" THEN SmpShuffle(s.n, tape) ELSE SmpSample(s.n, s.k, tape) IN
+   LET r == IF s.kind = "shuffle" THEN (IF NaiveShuffle THEN SmpShuffleNaive(s.n, tape) ELSE SmpShuffle(s.n, tape)) ELSE SmpSample(s.n, s.k, tape) IN
    IF s.st = "done" THEN r.st = "done" /\ r.drawn = Len(tape) /\ r.out = (IF s.kind = "shuffle" THEN s.arr ELSE s.out)
    ELSE r.st = "starved" /\ r.drawn = Len(tape) /\ r.out = (IF s.kind = "shuffle" THEN s.arr ELSE s.out)
 Memoryless == [][(lvl = 2 /\ lvl' = 2 /\ ~Accepts(s, tape'[Len(tape')])) => s' = s]_vars
@@ -68,7 +69,7 @@ MinLen(kind, n, k) == IF kind = "shuffle" THEN n - 1 ELSE k
 FibresAt(kind, n, k, L) ==
    LET top == (n + 1) ^ (IF kind = "shuffle" THEN n ELSE k)
        outs == TLCEval([x \in 1..(BB ^ L) |->
-                  LET r == IF kind = "shuffle" THEN SmpShuffle(n, TLCEval(DrawOf(x - 1, L))) ELSE SmpSample(n, k, TLCEval(DrawOf(x - 1, L)))
+                  LET r == IF kind = "shuffle" THEN (IF NaiveShuffle THEN SmpShuffleNaive(n, TLCEval(DrawOf(x - 1, L))) ELSE SmpShuffle(n, TLCEval(DrawOf(x - 1, L)))) ELSE SmpSample(n, k, TLCEval(DrawOf(x - 1, L)))
                   IN IF r.st = "done" THEN Code(r.out, n) + 1 ELSE top + 1])
        h == FoldLeft(LAMBDA hh, v : [hh EXCEPT ![v] = @ + 1], [j \in 1..(top + 1) |-> 0], outs)
        res == Results(kind, n, k)
